@@ -34,6 +34,7 @@ type histSpec struct {
 	Steps       []string          `json:"steps"`
 	PSilent     float64           `json:"p_silent"`
 	Gen         blocks.GenOptions `json:"gen"`
+	MinMetrics  int               `json:"min_metrics,omitempty"` // keysets: the universe has at least this many metrics
 	Metrics     []string          `json:"metrics,omitempty"`
 	Files       []string          `json:"files,omitempty"` // description of every flushed file, filled while running
 }
@@ -152,6 +153,10 @@ func genSpec(rnd *rand.Rand, j job, c *core.Ctx) *histSpec {
 		flushes(5, 10)
 		s.Steps = append(s.Steps, "compact", "reopen")
 		s.Threshold = 0
+	case "keysets":
+		s.Gen = keysetsGen()
+		s.MinMetrics = keysetsMinMetrics
+		genKeysetsSteps(rnd, s)
 	case "big":
 		s.Gen.BigSeries = c.Pick(3000, 66000)
 		s.Gen.MaxMetrics = 2
@@ -262,6 +267,9 @@ func (h *history) run(storeDir string) {
 		return
 	}
 	h.u = blocks.GenUniverse(h.rnd, spec.Gen)
+	for len(h.u.Metrics) < spec.MinMetrics {
+		h.u = blocks.GenUniverse(h.rnd, spec.Gen)
+	}
 	for _, m := range h.u.Metrics {
 		spec.Metrics = append(spec.Metrics, fmt.Sprintf("metric=%d fields(%s)=%v series(%s)=%d ids %d..%d base=[%d,%d]",
 			m.ID, m.FieldKind, metaStrings(m.Fields), m.SeriesKind, len(m.Pool), m.Pool[0], m.Pool[len(m.Pool)-1], m.Base.Start, m.Base.End))
@@ -283,7 +291,20 @@ func (h *history) run(storeDir string) {
 				fo.AllMetrics = true
 				fo.NoLongRange = true
 			}
-			blks, shape := h.u.GenFile(h.rnd, fo)
+			var blks []*blocks.Block
+			var shape blocks.FileShape
+			if spec.Kind == "keysets" {
+				// every table holds its own subset of the metrics: tables begin and end at different keys
+				sub, how := pickKeySubset(h.rnd, h.u)
+				fo.AllMetrics = true
+				blks, shape = sub.GenFile(h.rnd, fo)
+				res.count("keysets_tables."+how, 1)
+				if len(sub.Metrics) < len(h.u.Metrics) {
+					res.count("keysets_tables_holding_a_strict_subset_of_the_metrics", 1)
+				}
+			} else {
+				blks, shape = h.u.GenFile(h.rnd, fo)
+			}
 			if spec.Kind == "silent" {
 				blks = append(blks, silentBucketBlock(h.rnd, h.seq))
 				shape.SilentBuckets++
@@ -365,6 +386,7 @@ func (h *history) run(storeDir string) {
 				return
 			}
 			h.checkCompaction(view, after, expect, errs)
+			h.replayMergedIterator(old, view, after)
 			h.checkAgainstRef(after)
 			// the reader that was open before the compaction still observes the old files unchanged
 			oldView, err := blocks.ReadFamily(old, blocks.Options{}, h.queryOf)
